@@ -5,6 +5,7 @@ import (
 
 	sdk "github.com/cosmos/cosmos-sdk/types"
 	sdkerrors "github.com/cosmos/cosmos-sdk/types/errors"
+	authtypes "github.com/cosmos/cosmos-sdk/x/auth/types"
 
 	"github.com/irismod/service/keeper"
 	"github.com/irismod/service/types"
@@ -126,6 +127,15 @@ func handleMsgUpdateServiceBinding(ctx sdk.Context, k keeper.Keeper, msg *types.
 }
 
 func handleMsgSetWithdrawAddress(ctx sdk.Context, k keeper.Keeper, msg *types.MsgSetWithdrawAddress) (*sdk.Result, error) {
+	// earnings must not be paid into the module's own accounts: their balances are bound to
+	// the recorded deposits and escrowed fees, and a plain transfer to such an address before
+	// the module account exists would create an ordinary account in its place
+	for _, moduleAcc := range []string{types.DepositAccName, types.RequestAccName} {
+		if msg.WithdrawAddress.Equals(authtypes.NewModuleAddress(moduleAcc)) {
+			return nil, sdkerrors.Wrapf(sdkerrors.ErrInvalidAddress, "%s cannot be a withdrawal address", moduleAcc)
+		}
+	}
+
 	k.SetWithdrawAddress(ctx, msg.Owner, msg.WithdrawAddress)
 
 	ctx.EventManager().EmitEvents(sdk.Events{
